@@ -19,7 +19,10 @@
 (*     JumpHash!Pick(jumps[key], servers)    (Deterministic,               *)
 (*                                            OrderInsensitive), or        *)
 (*   - its sorted list is univ plus one server at the end and every pick   *)
-(*     is explained by J or by J plus the new bucket    (AppendStable).    *)
+(*     is explained by J or by J plus the new bucket    (AppendStable), or *)
+(*   - it is any other list of at most Len(univ) names (subset, duplicates,*)
+(*     empty) given to a long-lived selector in a SetServers sequence and  *)
+(*     every pick equals JumpHash!PickIn(jumps[key], NatSort(servers)).    *)
 (***************************************************************************)
 EXTENDS Integers, Sequences, FiniteSets, TLC, Json
 
@@ -30,7 +33,7 @@ VARIABLES i,        \* events consumed
           jumps,    \* jumps[key] = jump destinations learnt for the key
           verdict   \* "ok", or why event i was rejected
 
-JH == INSTANCE JumpHash WITH N <- 0, jumps <- {0}, a <- <<>>, b <- <<>>
+JH == INSTANCE JumpHash WITH N <- 0, Dups <- TRUE, Wrong <- "none", jumps <- {0}, a <- <<>>, b <- <<>>
 
 IsPrefix(s, t) == Len(s) <= Len(t) /\ \A j \in 1..Len(s) : s[j] = t[j]
 
@@ -38,15 +41,21 @@ Judge(e) ==
   LET sorted == JH!NatSort(e.servers)
       n      == Len(e.servers)
       K      == Len(e.picks)
-  IN IF Cardinality(JH!Range(e.servers)) # n \/ K # Len(jumps) THEN "malformed"
+  IN IF K # Len(jumps) THEN "malformed"
      ELSE IF e.internal # sorted THEN "NaturalSort"
+     ELSE IF n = 0 THEN IF \A k \in 1..K : e.picks[k] = 0 THEN "ok" ELSE "NoServers"   \* 0 = PickServer returned an error and no address
      ELSE IF \E k \in 1..K : e.picks[k] \notin JH!Range(e.servers) THEN "PickInList"
      ELSE IF IsPrefix(sorted, univ)
           THEN IF \A k \in 1..K : e.picks[k] = JH!PickIn(jumps[k], sorted) THEN "ok" ELSE "Deterministic/OrderInsensitive"
-     ELSE IF IsPrefix(univ, sorted) /\ n = Len(univ) + 1
+     ELSE IF IsPrefix(univ, sorted) /\ n = Len(univ) + 1 /\ Cardinality(JH!Range(e.servers)) = n
           THEN IF \A k \in 1..K : \/ n > 1 /\ e.picks[k] = JH!PickIn(jumps[k], sorted)
                                   \/ e.picks[k] = sorted[n]
                THEN "ok" ELSE "AppendStable"
+     \* ANY list of at most Len(univ) names (a subset of the universe in any order - servers removed from the middle -
+     \* or names listed several times): the jump destinations below Len(univ) of every key are known by now, and
+     \* the placement is the bucket's entry of the naturally sorted list whatever the names are
+     ELSE IF n <= Len(univ)
+          THEN IF \A k \in 1..K : e.picks[k] = JH!PickIn(jumps[k], sorted) THEN "ok" ELSE "SetServersSequence"
      ELSE "malformed"
 
 Init == i = 0 /\ univ = <<>> /\ jumps = <<>> /\ verdict = "ok"
